@@ -392,9 +392,16 @@ impl FixedCapacityMemoryPool {
         }
     }
 
+    /// Distance between consecutive blocks: max_block_size rounded up to the
+    /// configured alignment, so that every block starts on an aligned address
+    fn block_stride(&self) -> usize {
+        let align = self.config.alignment.max(1);
+        (self.config.max_block_size + align - 1) / align * align
+    }
+
     /// Allocate backing memory region (for mutable access)
     fn allocate_backing_memory(&mut self) -> Result<()> {
-        let total_size = self.config.total_blocks * self.config.max_block_size;
+        let total_size = self.config.total_blocks * self.block_stride();
         let layout = Layout::from_size_align(total_size, self.config.alignment)
             .map_err(|e| ZiporaError::invalid_data(&format!("Invalid layout: {}", e)))?;
 
@@ -414,7 +421,7 @@ impl FixedCapacityMemoryPool {
 
     /// Allocate backing memory region (for shared/const access via UnsafeCell)
     fn allocate_backing_memory_internal(&self) -> Result<()> {
-        let total_size = self.config.total_blocks * self.config.max_block_size;
+        let total_size = self.config.total_blocks * self.block_stride();
         let layout = Layout::from_size_align(total_size, self.config.alignment)
             .map_err(|e| ZiporaError::invalid_data(&format!("Invalid layout: {}", e)))?;
 
@@ -458,7 +465,7 @@ impl FixedCapacityMemoryPool {
         let memory = unsafe { (*self.memory.get()).ok_or_else(|| 
             ZiporaError::invalid_data("Memory not allocated"))? };
 
-        let block_size = self.config.max_block_size;
+        let block_size = self.block_stride();
         
         // Initialize all blocks as free in the largest size class
         let largest_class = self.size_classes.len() - 1;
@@ -493,7 +500,7 @@ impl FixedCapacityMemoryPool {
         let memory = unsafe { (*self.memory.get()).ok_or_else(|| 
             ZiporaError::invalid_data("Memory not allocated"))? };
 
-        let block_size = self.config.max_block_size;
+        let block_size = self.block_stride();
         
         // Initialize all blocks as free in the largest size class
         let largest_class = self.size_classes.len() - 1;
@@ -669,7 +676,7 @@ impl FixedCapacityMemoryPool {
         let base = memory.as_ptr() as usize;
         let addr = ptr.as_ptr() as usize;
         
-        if addr < base || addr >= base + self.total_capacity() {
+        if addr < base || addr >= base + self.config.total_blocks * self.block_stride() {
             return Err(ZiporaError::invalid_data("Pointer outside pool"));
         }
         
